@@ -1,14 +1,16 @@
-"""C20 — caches and the recent-write tier stay within their configured bounds (engine M skeletons)."""
+"""C20 — caches and the recent-write tier stay within their configured bounds (engine M skeletons; Kani bounded
+histories of the shared recency index over a finite-map model of HashMap)."""
 from vlib.mo import *
-from vlib.runner import run_mir_obligations
+from vlib.runner import KH, run_kani_group, run_mir_obligations
 
-ENGINES = "M"
+ENGINES = "KM"
 LEVEL = "other"
-EXPLANATION = ("mirflow/z3: evict-before-insert skeleton of the document cache, the query-result cache and the semantic embedding cache (capacity test precedes the insert, eviction removes from both "
+EXPLANATION = ("Kani/CBMC: every history of up to 7 operations (insert_new/touch/remove/pop_lru, symbolic kind and key per step, 4 keys) on the real LruIndex — its std HashMap replaced by a finite-map "
+               "model under cfg(kani) — agrees step by step with a reference list (length, order in both directions, return values).  mirflow/z3: evict-before-insert skeleton of the document cache, the query-result cache and the semantic embedding cache (capacity test precedes the insert, eviction removes from both "
                "structures, one critical section), and the hard-limit drain in TieredEngine::insert.  The arithmetic of the bound (pop_lru removes one element, len counts what insert adds) rests on "
                "std HashMap / indexmap and is outside the claim.")
-TRUSTED_BASE = ["rustc MIR", "z3", "std::collections::HashMap, indexmap, LruIndex contracts"]
-NOT_COVERED = ["histories", "re-insertion after a failed drain exceeding the limit", "LruIndex/VectorCache value-level Kani harnesses (std HashMap is beyond CBMC here: probe > 7 min)", "capacity 0 configurations"]
+TRUSTED_BASE = ["rustc MIR", "z3", "Kani/CBMC", "std::collections::HashMap behaves as a finite map (model: harness/support/verif_map.rs)", "indexmap contract"]
+NOT_COVERED = ["histories", "re-insertion after a failed drain exceeding the limit", "LruIndex histories longer than 7 operations or over more than 4 keys; for_each_recent", "VectorCache/QueryHashCache value-level histories on the real std HashMap (beyond CBMC: a 4-operation history did not finish in 20 min)", "capacity 0 configurations"]
 
 V = "vector_cache::VectorCache::"
 Q = "query_hash_cache::QueryHashCache::"
@@ -59,5 +61,26 @@ MOS = [
 ]
 
 
+def prepare_lru_overlay(o):
+    """cfg(kani): lru_index.rs takes its HashMap from the finite-map model crate::verif_map (DESIGN 6.2)."""
+    ok = o.replace_once("lru_index.rs", "use std::collections::HashMap;",
+                        "#[cfg(not(kani))]\nuse std::collections::HashMap;\n#[cfg(kani)]\nuse crate::verif_map::HashMap;",
+                        "cfg(kani): HashMap in lru_index.rs is the finite-map model crate::verif_map")
+    if not ok:
+        raise RuntimeError("lru_index.rs import line `use std::collections::HashMap;` not found verbatim")
+
+
+FL = [("lru_index.rs", f) for f in ("insert_new", "touch", "remove", "pop_lru", "detach")]
+HARNESSES = [
+    KH("O20.6/lru_histories_%d" % n, "c20_lru_histories_%d" % n,
+       "LruIndex: every history of %d operations agrees step by step with the reference list (len, order head->tail and tail->head, return values; a removed key is no longer tracked)" % n,
+       src="lru_index.rs", functions=FL, bounds="%d steps; per step symbolic kind in {insert_new, touch, remove, pop_lru} and symbolic key in 0..3; unwind 8" % n,
+       assumptions=["finite-map model crate::verif_map instead of std HashMap (capacity 4)"], tier=t, timeout=to)
+    for n, t, to in ((4, "quick", 900), (5, "thorough", 1500), (6, "thorough", 2400), (7, "thorough", 3000))
+]
+
+
 def run(tier, seed, notes):
-    return run_mir_obligations("C20", tier, MOS, notes)
+    obls = run_mir_obligations("C20", tier, MOS, notes)
+    obls += run_kani_group("C20", tier, "lib", {"lru_index.rs": "lru_index_proofs.rs"}, HARNESSES, support=("verif_map",), prepare=prepare_lru_overlay, jobs=4, notes=notes)
+    return obls
